@@ -45,10 +45,10 @@ Lemma path_info_nonul target : nonul (path_info target) = true.
 Proof. unfold path_info. apply cstr_nonul. Qed.
 
 (* ---------- the name-space model meets the realpath contract ---------- *)
-Lemma rp_walk_good fs fuel : forall cur todo res, Forall good cur -> Forall slash_free todo ->
-  rp_walk fs fuel cur todo = Some res -> Forall good res.
+Lemma rp_walk_good fs fuel : forall links cur todo res, Forall good cur -> Forall slash_free todo ->
+  rp_walk fs fuel links cur todo = Some res -> Forall good res.
 Proof.
-  induction fuel as [|f IH]; intros cur todo res Hc Ht H; cbn [rp_walk] in H. discriminate.
+  induction fuel as [|f IH]; intros links cur todo res Hc Ht H; cbn [rp_walk] in H. discriminate.
   destruct todo as [|c rest]. inversion H; subst. assumption.
   inversion Ht; subst.
   destruct (is_nil c || is_dot c) eqn:E1. eapply IH; eassumption.
@@ -59,7 +59,7 @@ Proof.
   destruct (fs_lookup fs (render (rev (c :: cur)))) as [[| id | t | m]|]. 5: discriminate.
   - eapply IH. 3: eassumption. constructor; assumption. assumption.
   - destruct (is_nil rest). 2: discriminate. inversion H; subst. constructor; assumption.
-  - destruct t as [|x t']. discriminate. eapply IH. 3: eassumption.
+  - destruct links as [|links']. discriminate. destruct t as [|x t']. discriminate. eapply IH. 3: eassumption.
     destruct (x =? slash). constructor. assumption.
     apply Forall_app. split. apply split_slash_free. assumption.
   - destruct (is_nil rest). 2: discriminate. inversion H; subst. constructor; assumption.
@@ -69,7 +69,7 @@ Lemma fs_realpath_canonical fs : canonical_contract (fs_realpath fs).
 Proof.
   intros p q H. unfold fs_realpath in H. destruct p as [|c r]. discriminate.
   destruct (c =? slash). 2: discriminate.
-  destruct (rp_walk fs (fs_fuel fs (c :: r)) [] (split_slash r)) as [cur|] eqn:E. 2: discriminate.
+  destruct (rp_walk fs (fs_fuel fs (c :: r)) MAXSYMLINKS [] (split_slash r)) as [cur|] eqn:E. 2: discriminate.
   inversion H; subst. exists (rev cur). split. reflexivity. apply Forall_rev.
   eapply rp_walk_good. 3: exact E. constructor. apply split_slash_free.
 Qed.
@@ -202,10 +202,10 @@ Definition real_node (fs : fsdesc) (res : list (list N)) : Prop :=
 Lemma all_dirs_tl fs cur : all_dirs fs cur -> all_dirs fs (tl cur).
 Proof. destruct cur; cbn [tl all_dirs]. auto. intros [_ H]. exact H. Qed.
 
-Lemma rp_walk_real fs fuel : forall cur todo res, all_dirs fs cur ->
-  rp_walk fs fuel cur todo = Some res -> real_node fs res.
+Lemma rp_walk_real fs fuel : forall links cur todo res, all_dirs fs cur ->
+  rp_walk fs fuel links cur todo = Some res -> real_node fs res.
 Proof.
-  induction fuel as [|f IH]; intros cur todo res Hc H; cbn [rp_walk] in H. discriminate.
+  induction fuel as [|f IH]; intros links cur todo res Hc H; cbn [rp_walk] in H. discriminate.
   destruct todo as [|c rest]. inversion H; subst. left. assumption.
   destruct (is_nil c || is_dot c). eapply IH; eassumption.
   destruct (is_dotdot c). eapply IH. 2: eassumption. apply all_dirs_tl. assumption.
@@ -213,7 +213,7 @@ Proof.
   - eapply IH. 2: eassumption. cbn [all_dirs]. split; assumption.
   - destruct (is_nil rest). 2: discriminate. inversion H; subst. right. exists c, cur. split. reflexivity. split. assumption.
     left. exists id. exact El.
-  - destruct t as [|x t']. discriminate. eapply IH. 2: eassumption. destruct (x =? slash). exact I. assumption.
+  - destruct links as [|links']. discriminate. destruct t as [|x t']. discriminate. eapply IH. 2: eassumption. destruct (x =? slash). exact I. assumption.
   - destruct (is_nil rest). 2: discriminate. inversion H; subst. right. exists c, cur. split. reflexivity. split. assumption.
     right. exists m. exact El.
 Qed.
@@ -232,6 +232,6 @@ Proof.
   destruct (is_file_prefix root q). 2: discriminate. inversion H; subst q.
   unfold fs_realpath in Eq. destruct (cstr (root ++ slash :: c :: x)) as [|a r]. discriminate.
   destruct (a =? slash). 2: discriminate.
-  destruct (rp_walk fs (fs_fuel fs (a :: r)) [] (split_slash r)) as [cur|] eqn:Ew. 2: discriminate.
+  destruct (rp_walk fs (fs_fuel fs (a :: r)) MAXSYMLINKS [] (split_slash r)) as [cur|] eqn:Ew. 2: discriminate.
   inversion Eq; subst. exists cur. split. reflexivity. eapply rp_walk_real. 2: exact Ew. exact I.
 Qed.
